@@ -38,7 +38,8 @@ ADV_MS = [1, 7, 50, 99, 100, 101, 500, 1000, 4000, 9899, 9900, 9999, 10000, 1000
 PULL_MAX = [1, 1, 2, 3, 10, 10, 100, 1000]
 PULL_MAX_ODD = [0, -1, 65535, 65536, 65537, 131072, 2147483647, -2147483648, 1001, 999]
 ACKDL = [0, 0, 10, 11, 12, 15, 20, -5, 600, 700]
-MOD_SECS = [0, 0, 1, 5, 9, 10, 11, 30, 599, 600, 601, 100000, -1, -2147483648, 2147483647]
+MOD_SECS = [0, 0, 1, 5, 9, 10, 11, 30, 599, 600, 601, 100000, 65535, 65536, 65537, 65566, 131072, 131100, 16777216,
+            -1, -2147483648, 2147483647]
 BAD_ACK_IDS = ["", "x", "-1", "1.5", "18446744073709551616", "99999999999999999999999", "١", " 1", "1 ", "0x1"]
 ODD_OK_ACK_IDS = ["+1", "001", "+0002", "0", "18446744073709551615"]
 PAGE_SIZES = [0, 0, 1, 2, 3, 5, 19, 20, 21, 1000, 1001, 2147483647, -1, -2147483648]
@@ -380,13 +381,14 @@ def deadline_of(t0_ms, secs):
     return t + (t % 100)
 
 
-def deadline_probe_cases(phases, ackdls=(0, 10, 11, 15), mods=(None,), prefix="dl"):
+def deadline_probe_cases(phases, ackdls=(0, 10, 11, 15), mods=(None,), prefix="dl", gaps=(40,)):
     """For each hand-out phase: deliver, then probe 1 ms before, at, and 1 ms after the deadline.
     With mods: after delivery at t0, at t0+3s a MOD n is issued and the probes bracket the new deadline
     (and the old one, to see that it is gone)."""
     T = hx(tname("p", "t"))
     cases = []
     for p in phases:
+      for gap in gaps:
         for dl in ackdls:
             for mod in mods:
                 Sn = hx(sname("p", "s"))
@@ -397,9 +399,9 @@ def deadline_probe_cases(phases, ackdls=(0, 10, 11, 15), mods=(None,), prefix="d
                 ops += ["PUB %s 2 61 0 62 0" % T, "PULL %s 1 1" % Sn]          # lease A at t0 = p
                 now = p
                 d_a = deadline_of(p, eff)
-                # a second lease 40 ms later with its own deadline
-                ops += ["ADV %d" % (40 * MS), "PULL %s 1 1" % Sn]
-                now += 40
+                # a second lease a little later with its own deadline
+                ops += ["ADV %d" % (gap * MS), "PULL %s 1 1" % Sn]
+                now += gap
                 d_b = deadline_of(now, eff)
                 events = sorted({d_a, d_b})
                 if mod is not None:
@@ -425,7 +427,7 @@ def deadline_probe_cases(phases, ackdls=(0, 10, 11, 15), mods=(None,), prefix="d
                     now += 1
                     ops += ["STATS " + Sn, "PULL %s 5 1" % Sn]
                 ops += ["ACK %s 2 ^0 ^1" % Sn, "STATS " + Sn]
-                cases.append(("%s-p%d-a%d-m%s" % (prefix, p, dl, mod), ops))
+                cases.append(("%s-p%d-g%d-a%d-m%s" % (prefix, p, gap, dl, mod), ops))
     return cases
 
 
@@ -467,6 +469,8 @@ def paging_walk_cases(counts, sizes, seed=0, prefix="pg"):
                     ops.append("%s %s %d %s" % (kind, arg, size, tok))
                     tok = hx(token_of((k + 1) * eff))
                 ops.append("%s %s %d %s" % (kind, arg, size, hx(token_of(n + 5))))
+                for big in (2 ** 64 - 1, 2 ** 64 - 20, 2 ** 64 - 1001, 2 ** 63, 2 ** 32, 2 ** 31 - 1):
+                    ops.append("%s %s %d %s" % (kind, arg, size, hx(token_of(big))))
                 ops.append("%s %s %d %s" % (kind, arg, size, hx(rng.choice(BAD_TOKENS))))
             cases.append(("%s-n%d-s%d" % (prefix, n, size), ops))
     return cases
@@ -836,4 +840,44 @@ def push_cases(seed, n, with_hang=False, prefix="ps"):
         else:
             ops += ["LOOP 40 2", "STATS " + P0]
         cases.append(("%s%d" % (prefix, i), ops))
+    return cases
+
+
+# ---------------------------------------------------------------- racing namespace operations (C10)
+
+def racing_namespace_cases(seeds, prefix="rn"):
+    """Clients that act on a response at once (SEQ op ;; get) racing each other on one name: two or three
+    deletes of one subscription / topic, two or three creates of one name, with publishers keeping the topic busy."""
+    cases = []
+    for seed in seeds:
+        rng = random.Random(4000 + seed)
+        T, Sn, S2 = hx(tname("p", "t")), hx(sname("p", "victim")), hx(sname("p", "fresh"))
+        T2 = hx(tname("p", "fresh-topic"))
+        ops = ["SEED %d" % seed, "CT " + T, "CS %s %s 10 ~" % (Sn, T)]
+        kind = seed % 4
+        n = 900
+        calls = []
+        for _ in range(rng.randrange(0, 8)):
+            calls.append("PUB %s 1 61 0" % T)
+        k = rng.choice([2, 2, 3])
+        if kind == 0:      # racing deletes of one subscription
+            calls += ["SEQ DS %s ;; GS %s" % (Sn, Sn)] * k
+        elif kind == 1:    # racing creates of one subscription
+            calls += ["SEQ CS %s %s 10 ~ ;; GS %s" % (S2, T, S2)] * k
+        elif kind == 2:    # racing creates of one topic
+            calls += ["SEQ CT %s ;; GT %s" % (T2, T2)] * k
+        else:              # racing deletes of one topic
+            calls += ["SEQ DT %s ;; GT %s" % (T, T)] * k
+        rng.shuffle(calls)
+        ids = []
+        for c in calls:
+            ops.append("BG %d %s" % (n, c))
+            ids.append(n)
+            n += 1
+            if rng.random() < 0.3:
+                ops.append("YIELD %d" % rng.randrange(1, 8))
+        ops.append("Q")
+        ops += ["JOIN %d" % i for i in ids]
+        ops += ["GS " + Sn, "GS " + S2, "GT " + T, "GT " + T2, "LS %s 0 -" % hx("projects/p"), "LT %s 0 -" % hx("projects/p")]
+        cases.append(("%s%d" % (prefix, seed), ops))
     return cases
